@@ -7,8 +7,9 @@ generated randoms (requestId -> (request tx hash, height, value)), the oracle re
 waiting for a seed (service context id -> request), and the block header fields the module
 reads (height, block time in unix seconds, app hash).
 
-* `RequestRandom`: dueHeight = currentHeight + int64(blockInterval) — unchecked `int64`
-  arithmetic, modelled modulo 2^64 exactly as the queue key `uint64(height)` sees it;
+* `RequestRandom`: rejected when blockInterval > uint64(MaxInt64 - currentHeight) (the due
+  height must fit `int64`, fix f728afa); otherwise dueHeight = currentHeight + int64(blockInterval),
+  kept modulo 2^64 exactly as the queue key `uint64(height)` sees it;
   requestId = sha256(bigEndian64(height) ++ consumer bech32 string).
 * `BeginBlocker` at height H drains the queue entries whose key height is uint64(H-1).
 * `GetRand` divides by the block time's unix seconds with `big.Int.Div` (Euclidean; panics
@@ -92,6 +93,9 @@ def two64 : Int := 18446744073709551616
 /-- `uint64(x)` of an `int64`/wrapped sum: the queue key's height -/
 def u64 (x : Int) : Nat := (x % two64).toNat
 
+/-- `uint64(math.MaxInt64 - currentHeight)`: the largest accepted block interval -/
+def maxInterval (height : Int) : Nat := u64 (9223372036854775807 - height)
+
 /-- `sdk.Uint64ToBigEndian` -/
 def be64 (n : Nat) : List UInt8 :=
   [UInt8.ofNat (n / 72057594037927936 % 256), UInt8.ofNat (n / 281474976710656 % 256),
@@ -145,6 +149,7 @@ def stepRequest (rid : Int → String → Id) (s : State) (consumer : String) (c
     (interval : Nat) (txHash : String) (feeOk : Bool) : R :=
   if !consumerOk then .error (.reject "invalid consumer") else
   if !feeOk then .error (.reject "invalid service fee cap") else
+  if interval > maxInterval s.height then .error (.reject "block interval too large") else
   .ok { s with queue := AMap.set s.queue (u64 (s.height + interval), rid s.height consumer)
                  { height := s.height, consumer := consumer, txHash := txHash, oracle := false,
                    feeCap := "", ctxId := "" } }
@@ -154,6 +159,7 @@ def stepRequestOracle (rid : Int → String → Id) (s : State) (consumer : Stri
     (interval : Nat) (txHash : String) (feeCap : String) (feeOk : Bool) (svc : Svc) : R :=
   if !consumerOk then .error (.reject "invalid consumer") else
   if !feeOk then .error (.reject "invalid service fee cap") else
+  if interval > maxInterval s.height then .error (.reject "block interval too large") else
   match svc with
   | .err => .error (.reject "request service failed")
   | .panic => .error (.panic "division by zero")
